@@ -308,7 +308,7 @@ Qed.
 
 Theorem named_order_irrelevant : forall b ps ps', NoDup (map fst ps) -> Permutation ps ps' -> nam b ps = nam b ps'.
 Proof.
-  intros b ps ps' Hnd Hp. unfold nam, named, named1, named2, named_list.
+  intros b ps ps' Hnd Hp. unfold nam, named, named1, named2, named_guard, named_list.
   assert (G : forall n, get_param n ps = get_param n ps') by (intros n; apply get_param_perm; assumption).
   destruct b; rewrite ?G; reflexivity.
 Qed.
@@ -618,16 +618,7 @@ Proof. reflexivity. Qed.
 Lemma numbers_of_map : forall ns, numbers_of (map vnum ns) = Some ns.
 Proof. induction ns as [|[c e] ns IH]; cbn; auto. rewrite IH. reflexivity. Qed.
 
-Theorem sum_spec : forall n ns, b_sum (map vnum (n :: ns)) = vnum (fold_left nadd (n :: ns) (0, 0)).
-Proof. intros n ns. unfold b_sum. rewrite numbers_of_map. destruct n. reflexivity. Qed.
-Theorem mean_spec : forall n ns,
-  b_mean (map vnum (n :: ns)) = vnum (ndiv (fold_left nadd (n :: ns) (0, 0)) (Z.of_nat (length (n :: ns)), 0)).
-Proof. intros n ns. unfold b_mean. rewrite numbers_of_map. destruct n. reflexivity. Qed.
-Theorem median_spec : forall n ns,
-  let s := nsort (n :: ns) in let k := (length s / 2)%nat in
-  b_median (map vnum (n :: ns)) =
-  if Nat.even (length s) then vnum (ndiv (nadd (nth (k - 1) s (0, 0)) (nth k s (0, 0))) (2, 0)) else vnum (nth k s (0, 0)).
-Proof. intros n ns. unfold b_median. rewrite numbers_of_map. destruct n. reflexivity. Qed.
+(* sum, mean, median over the shared decimal128 layer: C08/NumProofs.v *)
 Theorem aggregates_empty : b_sum [] = VNull /\ b_mean [] = VNull /\ b_median [] = VNull /\ b_min [] = VNull /\ b_max false [] = VNull /\ b_mode [] = VList [].
 Proof. repeat split; reflexivity. Qed.
 Theorem aggregates_non_number : forall f pre x post, In f [b_sum; b_mean; b_median; b_mode] ->
